@@ -10,11 +10,13 @@ batch sizes.  Correspondence: the library's intermediate observables vs the Lean
 precision (relative to the loss of a zero prediction) and strictly larger at perturbed objects / probes."""
 from fractions import Fraction
 
+import os
 import numpy as np
 
 from props import c02_problem as cp
 
 LEVEL = "proof"
+EXTRA_PROPS = ["QuantemModel.Props.C02Ext"]   # growth 6: chunked _set_patch_indices loop, sub-pixel offset sign, end-to-end compositions
 MANIFEST_ENTRY = {
     "category": "proof",
     "text": "Lean 4 theorems over an executable model of the ptychography forward pipeline composed from the C16 operator model "
@@ -35,12 +37,23 @@ MANIFEST_ENTRY = {
             "thicknesses; the per-slice setter accepts exactly the admissible lists; targets after re-preprocessing + reconstruct are the "
             "stack of the LAST preprocessing the loss type selects; the index cache is never stale after dset.forward; nearest pixel + "
             "sub-pixel shift decompose every position (|shift| <= 1/2) and exact ties go to the even neighbour. "
+            "Growth 6 (Props/C02Ext.lean, Model/ForwardExt2.lean): the CHUNKED loop of _set_patch_indices (chunk = min(1000, n), range(0, n, chunk), "
+            "slices, torch.cat) is modelled as written and proved equal to the position-by-position indices for EVERY chunk size and scan length "
+            "(chunks tile the list; count ceil(n/c), lengths min(c, n - kc); only the empty scan raises); the sub-pixel offset is p - floor(p) >= 0 "
+            "below the half pixel and p - floor(p) - 1 < 0 above it; end-to-end compositions: any thickness history -> rebuilt propagators -> "
+            "forward = data simulated with the last accepted thicknesses -> intensity losses of the no_shift-preprocessed data = 0; any position "
+            "history -> cached indices + offsets of the next dset.forward -> patterns = specification at the clipped positions; stored chunked "
+            "indices -> pipeline = specification. "
             "Every run executes the specification at Float in the Lean driver to simulate 4D-STEM data, feeds them to the real "
             "preprocess/from_models pipeline, compares every intermediate observable with the model and evaluates the property "
             "predicate (loss zero at the truth, strictly larger at perturbations) on the real code for all loss types / batch sizes, "
             "also after histories of reconstruct() calls, through alternative entry points, after histories containing refused calls "
             "(against an untouched twin), after re-preprocessing one dataset object, and at exact tie / integer scan positions; the three "
-            "state machines are compared with the real objects call by call (exact); public signatures / defaults are pinned.",
+            "state machines are compared with the real objects call by call (exact); public signatures / defaults are pinned. Fixed blocks "
+            "(independent of the seed) run every time: sibling configurations in ONE process differing only in beam energy / sampling / slice "
+            "thicknesses (also permuted) / ROI orientation with 3 slices and 2 modes, the base again at the end; scan rotations in every quadrant "
+            "and beyond 180 deg with and without exchanged axes; a scan of 1073 = 37 x 29 positions (more than the internal chunk of 1000, not a "
+            "multiple) on a 6 x 5 ROI with batches of 1073 / 1000 / 1001 (thorough tier: also 1023 transposed and 2021).",
     "note": "Partial by nature (DESIGN §7): the theorems are convention algebra over the reals; float32/complex64 accuracy of the "
             "library, strict increase under perturbation and stationarity are measured, not proved. The `constant` clause is decided "
             "only where the fitted constant recovers the true centre (point-symmetric problems; odd ROI exact, even ROI limited by "
@@ -56,7 +69,8 @@ MANIFEST_ENTRY = {
 RULE = ("a case is one generated ptychography configuration pushed through simulate → real preprocess → real forward pipeline → "
         "all loss types × batch sizes × (truth + 5 perturbations) + two histories of 2-4 reconstruct() calls on the same object + two alternative-entry-point "
         "set-ups + one history with refused calls + one re-preprocessing history (each against an untouched twin) + three state-machine histories "
-        "(thickness setter, targets, scan positions) compared call by call with the Lean model; evaluations count every real loss evaluation and every compared "
+        "(thickness setter, targets, scan positions) compared call by call with the Lean model; plus the seed-independent fixed blocks (siblings, quadrants, "
+        "large scan: light cases without histories); evaluations count every real loss evaluation and every compared "
         "observable; distinct non-trivial = distinct (row parity, col parity, square?, obj type, #slices, #modes, com fit, padded?, "
         "dyadic step?) signature with at least 9 scan positions")
 TRUSTED = ["torch.fft / numpy.fft compute the defining DFT sums; torch advanced indexing, round-half-even of torch.round/np.round (modelled, sampled)",
@@ -112,6 +126,11 @@ ASSUMPTIONS = [
     "state machines: thickness histories run on the geometry object (dummy data), target histories on the re-preprocessed dataset "
     "(stacks identified by content), position histories through the public scan_positions_px setter with exact k/8 values; "
     "`_set_targets` is reached through the public reconstruct(num_iters=0, loss_type=...)",
+    "fixed blocks (fixed_blocks(), BLOCK_SEED, independent of VERIF_SEED): light cases = geometry / index (exact, ALL positions) / preprocessing / "
+    "forward correspondences + loss at the truth for 4 loss types x batch sizes + 1 object and 1 probe perturbation, no histories; for scans with "
+    "more than 200 positions the Lean forward / preprocessing models run on a fixed subset of ~20 positions (first, last, 998..1002, row ends), "
+    "Spec.simulate and the exact index model on all of them; a sibling's replay runs the base configuration first in the same process",
+    "torch runs single-threaded inside run() (tiny tensors; results are compared by the tolerance rule)",
     "strict increase is measured at random perturbations only (not a theorem: it depends on the perturbation not being a symmetry); "
     "stationarity / autograd gradients are not evaluated",
 ]
@@ -159,8 +178,14 @@ def enc_flat(x):
     return {"re": [f2b(v) for v in x.real.tolist()], "im": [f2b(v) for v in x.imag.tolist()]}
 
 
+_ASK_SECONDS = {}
+
+
 def ask(drv, obj):
+    import time
+    t0 = time.time()
     r = drv.ask(obj)
+    _ASK_SECONDS[obj.get("op")] = _ASK_SECONDS.get(obj.get("op"), 0.0) + time.time() - t0
     if "ok" not in r:
         raise DriverError(f"driver error {r} on op {obj.get('op')}")
     return r["ok"]
@@ -898,9 +923,14 @@ def pipeline_case(ctx, drv, case, light=False):
 def _pipeline_case(ctx, drv, case, light=False):
     from qv.prng import Rng
     cfg = gen_cfg(case["rseed"], case.get("index", 0))
+    light = light or bool(case.get("light"))
+    if case.get("override"):
+        cfg = apply_override(cfg, case["override"])
     r0, r1 = cfg["roi"]
     gr, gc = cfg["scan"]
     n = gr * gc
+    if case.get("block"):
+        ctx.dist[f"fixed-block={case['block']}"] += 1
     S, K = cfg["slices"], cfg["modes"]
     rng = Rng(cfg["truth_seed"])
     symmetric = cfg["com"] == "constant"
@@ -1018,20 +1048,24 @@ def _pipeline_case(ctx, drv, case, light=False):
         ctx.disagree("geometry-stable", case, "same geometry as the dummy run", "differs", "positions / indices depend on the intensities")
     # 4a. preprocessing correspondence
     data32 = data.astype(np.float32).astype(np.float64)
-    mp = ask(drv, {"op": "preprocess", "patterns": [enc_rows(d) for d in data32], "fit": cfg["com"], "R0": r0, "R1": r1})
+    # large scans (fixed block `large`): the model runs on a fixed subset of the positions (first, last, both sides of the library's
+    # internal chunk boundary of 1000 patch-index rows, a few others) — the predicate and the exact index comparison use all of them
+    sub = list(range(n)) if n <= 200 else sorted({0, 1, n - 1, n - 2, 998, 999, 1000, 1001, 1002, gc - 1, gc, n // 2} | {rng.below(n) for _ in range(8)})
+    sub = [k for k in sub if 0 <= k < n]
+    mp = ask(drv, {"op": "preprocess", "patterns": [enc_rows(data32[k]) for k in sub], "fit": cfg["com"], "R0": r0, "R1": r1})
     com_fit = np.array([pd.com_fit[0, 0, 0], pd.com_fit[1, 0, 0]], dtype=np.float64)
     centre = np.array([r0 // 2, r1 // 2], dtype=np.float64)
     corr(ctx, "com-measured", case, np.array([[b2f(a), b2f(b)] for a, b in mp["com_measured"]]),
-         np.stack([pd.com_measured[0].reshape(-1), pd.com_measured[1].reshape(-1)], axis=1).astype(np.float64), 1e-4)
+         np.stack([pd.com_measured[0].reshape(-1), pd.com_measured[1].reshape(-1)], axis=1).astype(np.float64)[sub], 1e-4)
     corr(ctx, f"com-fit[{cfg['com']}]", case, np.array([b2f(v) for v in mp["com_fit"]]), com_fit, 1e-4)
     if not np.all(pd.com_fit == pd.com_fit[:, :1, :1]):
         ctx.disagree("com-fit-constant", case, "one value", "varies over the scan", "no_shift / constant must give a position-independent origin")
     corr(ctx, "descan-bookkeeping", case, np.array([b2f(v) for v in mp["descan"]]), pd.descan_shifts.detach().numpy()[0].astype(np.float64), 1e-4)
     corr(ctx, "mean-intensity", case, np.array([b2f(mp["mean_intensity"]) / mean_I]), np.array([1.0]), 1e-5)
     mamps = np.array([dec_rows(j) for j in mp["amplitudes"]])
-    corr(ctx, f"centred-amplitudes[{cfg['com']}]", case, mamps / np.sqrt(pix), pd.centered_amplitudes.numpy().astype(np.float64) / np.sqrt(pix), TOL32)
+    corr(ctx, f"centred-amplitudes[{cfg['com']}]", case, mamps / np.sqrt(pix), pd.centered_amplitudes.numpy().astype(np.float64)[sub] / np.sqrt(pix), TOL32)
     mints = np.array([dec_rows(j) for j in mp["intensities"]])
-    corr(ctx, f"centred-intensities[{cfg['com']}]", case, mints / pix, pd.centered_intensities.numpy().astype(np.float64) / pix, TOL32)
+    corr(ctx, f"centred-intensities[{cfg['com']}]", case, mints / pix, pd.centered_intensities.numpy().astype(np.float64)[sub] / pix, TOL32)
     # normalisation clause: the library fixes the probe intensity to the mean pattern intensity
     # normalisation (theorem mean_intensity_eq_probe_intensity): mean pattern intensity = total probe intensity, and the
     # library rescales its initial probe to it (set_initial_probe/_apply_weights) — correspondence streams, not predicates
@@ -1066,15 +1100,16 @@ def _pipeline_case(ctx, drv, case, light=False):
         t_in = {"kind": "cx", "obj": [enc_flat(lib_obj[s].astype(np.complex128)) for s in range(S)]}
         amp_dev = maxabs(np.abs(lib_obj.astype(np.complex128)) - 1)
         ctx.stat_max("pred_reldist[|constrained object| = 1]", amp_dev)
-    detail = sorted({0, n - 1, rng.below(n)})
+    detail = sorted({0, n - 1, rng.below(n)}) if n <= 200 else [0, n - 1, 999, 1000]
+    detail_sub = [sub.index(k) for k in detail]
     full = cp.run_pipeline(p, "l2_amplitude", n)[0]
     if not full["descan_none"]:
         ctx.disagree("descan-disabled", case, "descan None", "descan tensor", "dataset applies a descan ramp although descan learning is off")
-    mf = ask(drv, {"op": "forward", **t_in, **common, "probes": [enc_img(lib_probe[m]) for m in range(K)], "detail": detail})
+    mf = ask(drv, {"op": "forward", **t_in, **{**common, "positions": [posq[k] for k in sub]}, "probes": [enc_img(lib_probe[m]) for m in range(K)], "detail": detail_sub})
     mpat = np.array([dec_rows(j) for j in mf["patterns"]])
-    ok_int = corr(ctx, f"predicted-intensities:{psig(r0, r1)}", case, mpat / pix, full["pred"] / pix, TOL32, note="model forward vs real pipeline")
+    ok_int = corr(ctx, f"predicted-intensities:{psig(r0, r1)}", case, mpat / pix, full["pred"][sub] / pix, TOL32, note="model forward vs real pipeline")
     for dj in mf["detail"]:
-        k = dj["i"]
+        k = sub[dj["i"]]
         for m in range(K):
             corr(ctx, "shifted-probes", case, dec_img(dj["shifted"][m]) / np.sqrt(pix), full["shifted"][m, k] / np.sqrt(pix), TOL32, note=f"position {k} mode {m}")
         for s in range(S):
@@ -1083,11 +1118,15 @@ def _pipeline_case(ctx, drv, case, light=False):
     if not clipped:   # (clipped positions: the pipeline leaves the recorded positions — known finding, decided by the predicate)
         corr(ctx, f"prediction-vs-reference:{psig(r0, r1)}", case, data / pix, full["pred"] / pix, TOL32, note="real pipeline at the truth vs Spec.simulate")
     if not clipped:
-        corr(ctx, "model-forward-vs-reference", case, data / pix, mpat / pix, 1e-5, note="Forward.forward (Float, library's float32 truth) vs Spec.simulate")
+        corr(ctx, "model-forward-vs-reference", case, data[sub] / pix, mpat / pix, 1e-5, note="Forward.forward (Float, library's float32 truth) vs Spec.simulate")
 
     # ---- 5. property predicate on the real code
     mask = p.dset.detector_mask.double().numpy()
     bsizes = sorted({n, 1, rng.choice([2, 3, 4, 5]), rng.randint(2, n - 1)}) if not light else [n, 3]
+    if n > 1000:
+        # more positions than the library's internal chunk of 1000 patch-index rows: batches that end exactly at, one before /
+        # after the chunk boundary and a second batch shorter than the first (second repetition of the batch loop)
+        bsizes = [n, 1000, 1001]
     ctx.dist[f"batch_sizes={bsizes}"] += 1
     key_base = f"{cfg['com']}:{psig(r0, r1)[:2]}"
     KEY_CLIP = "scan-exceeds-object-box:clip_scan_positions"
@@ -1123,6 +1162,8 @@ def _pipeline_case(ctx, drv, case, light=False):
         ml = b2f(ask(drv, {"op": "loss", "loss_type": lt, "preds": [enc_rows(x) for x in recs[0]["pred"]],
                            "targets": [enc_rows(x) for x in p.dset.targets.double().numpy()], "mask": enc_rows(mask), "num_gpts": n, "mean_intensity": f2b(mean_I)}))
         corr(ctx, f"loss-value[{lt}]", case, np.array([ml]), np.array([recs[0]["loss"]]), TOL32, note="at the truth")
+    if light:
+        return _light_tail(ctx, case, cfg, p, phi, probe_lib, bsizes, truth_epoch, applicable, clipped, key, n, ok_int)
     # alternative public entry points of every step must give the same problem
     entry_point_stream(ctx, case, cfg, p, pd, data, (phi, probe_lib), mask, mean_I, pix, applicable, clipped, key, rng, full["pred"])
     # histories of real reconstruct() calls on this one object (state left behind by earlier calls must not matter)
@@ -1173,6 +1214,44 @@ def _pipeline_case(ctx, drv, case, light=False):
                     corr(ctx, f"loss-value[{lt}]", case, np.array([ml]), np.array([rec["loss"]]), TOL32, note=f"perturbed {what}, batch of {len(bi)} of {n}")
     ctx.sample({k: case[k] for k in ("stream", "rseed", "index", "roi", "scan", "step_px", "samp", "slices", "modes", "obj_type", "pad", "pad_used", "obj_shape", "com") if k in case}, limit=6)
     return ok_int
+
+
+def _light_tail(ctx, case, cfg, p, phi, probe_lib, bsizes, truth_epoch, applicable, clipped, key, n, ok_int):
+    """fixed-block configurations (large scans, sibling configurations, rotation quadrants): one object and one probe perturbation,
+    full batch only; the history / entry-point / state-machine streams are left to the regular configurations"""
+    prng = np.random.default_rng(cfg["truth_seed"] % (2 ** 32))
+    perts = [("object", np.clip(phi + 0.1 * prng.standard_normal(phi.shape), 0.0, None), probe_lib),
+             ("probe", phi, probe_lib * (1 + 0.1 * (prng.standard_normal(probe_lib.shape) + 1j * prng.standard_normal(probe_lib.shape))))]
+    for j, (what, phi_p, probe_p) in enumerate(perts):
+        cp.install_truth(p, cfg, phi_p, probe_p)
+        for lt in cp.LOSS_TYPES:
+            recs = cp.run_pipeline(p, lt, n)
+            ctx.count(len(recs))
+            lp = float(np.mean([r["loss"] for r in recs]))
+            lt0 = truth_epoch[(lt, n)]
+            if applicable:
+                ctx.stat_max(f"truth_over_perturbed[{lt}]" + ("[scan exceeds object box]" if clipped else ""), lt0 / lp if lp > 0 else float("inf"))
+                if not (lp > lt0):
+                    ctx.pred_fail(key("perturbed-not-larger"), f"{lt} loss at a perturbed {what} is not larger than at the truth (batch size {n})",
+                                  {**case, "loss_type": lt, "batch_size": n, "perturbation": j}, observed=f"perturbed={lp:.6g} truth={lt0:.6g}", required="perturbed > truth")
+    return ok_int
+
+
+def apply_override(cfg, ov):
+    """fixed-block configurations: the seeded configuration with some fields replaced (JSON-able, part of the replay case)"""
+    cfg = dict(cfg)
+    cfg.update(ov)
+    if "step_px" in ov or "samp" in ov:
+        cfg["step"] = [float(np.float32(cfg["step_px"][0] * cfg["samp"][0])), float(np.float32(cfg["step_px"][1] * cfg["samp"][1]))]
+        cfg["dyadic"] = all(float(v * 8).is_integer() for v in cfg["step_px"])
+    if "slices" in ov and "dz" not in ov:
+        cfg["dz"] = (list(cfg["dz"]) + [4.5, 7.25, 11.0])[: cfg["slices"] - 1]
+    if cfg["modes"] == 1:
+        cfg["mode_order"] = "single"
+    elif cfg.get("mode_order") == "single":
+        cfg["mode_order"] = "ascending"
+    cfg["ties"] = False
+    return cfg
 
 
 # ----------------------------------------------------------------------------- pinned public signatures / defaults
@@ -1251,15 +1330,67 @@ def round_stream(ctx, drv):
     ctx.mark(("round", "ties+dyadic+float32"))
 
 
+# ----------------------------------------------------------------------------- fixed blocks (independent of VERIF_SEED)
+BLOCK_SEED = 0x6C02B10C
+BLOCK_BASE = {"roi": [8, 6], "scan": [3, 4], "samp": [0.5, 0.5], "step_px": [1.625, 2.375], "slices": 3, "dz": [4.0, 9.5], "modes": 2,
+              "obj_type": "complex", "pad": [4, 4], "rotation_deg": 0, "transpose": False, "energy": 300e3, "com": "no_shift",
+              "mode_order": "ascending", "obj_kind": "rough", "counts": 4096.0}
+
+
+def fixed_blocks(thorough=False):
+    """configurations every run evaluates whatever the seed (light: predicate at the truth + 2 perturbations + all correspondences of
+    the pipeline, no histories):
+    siblings — ONE process runs configurations that differ from the base in exactly one of beam energy / object sampling / slice
+      thicknesses (also the same thicknesses in the other order) / ROI orientation, >= 2 slices, and the base again at the end: state
+      shared between objects (module-level propagator or coordinate caches keyed too coarsely) shows as a wrong loss at the truth;
+    quadrants — scan rotation in every quadrant and beyond 180 deg, with and without exchanged axes, H > W and H < W scans;
+    large — scans with more than 1000 positions whose count is not a multiple of 1000 (1073 = 37 x 29, 1023 = 31 x 33 stays below;
+      2021 = 43 x 47 in the thorough tier), tiny ROI, fractional parts of the positions on both sides of 0.5"""
+    B = BLOCK_BASE
+    out = []
+    sib = [("base", {}), ("energy", {"energy": 80e3}), ("sampling", {"samp": [0.25, 0.25]}), ("dz-swapped", {"dz": [9.5, 4.0]}),
+           ("roi-swapped", {"roi": [6, 8]}), ("base-again", {})]
+    if thorough:
+        sib[-1:-1] = [("dz", {"dz": [4.0, 9.75]}), ("energy-again", {"energy": 80e3})]
+    for name, ov in sib:
+        out.append({"block": f"siblings:{name}", "override": {**B, **ov}})
+    quad = [(135, False, [3, 4]), (-135, True, [5, 3]), (180, False, [4, 3]), (180, True, [3, 4]), (225, True, [5, 3]), (-45, False, [3, 4]),
+            (45, True, [4, 3]), (270, False, [3, 5])]
+    for k, (deg, tp, scan) in enumerate(quad if thorough else quad[:4]):
+        out.append({"block": f"quadrants:{deg}:{'T' if tp else 'N'}", "override": {**B, "rotation_deg": deg, "transpose": tp, "scan": scan, "slices": 2, "dz": [6.5],
+                    "pad": [8, 8], "step_px": [1.25, 1.75], "roi": [7, 10] if k % 2 else [10, 7], "modes": 1 + k % 2, "obj_type": ("pure_phase", "potential", "complex")[k % 3]}})
+    out.append({"block": "large:1073", "override": {**B, "scan": [37, 29], "roi": [6, 5], "step_px": [0.375, 0.625], "slices": 2, "dz": [6.5], "modes": 1}})
+    if thorough:
+        out.append({"block": "large:1023T", "override": {**B, "scan": [31, 33], "roi": [5, 6], "step_px": [0.625, 0.375], "slices": 2, "dz": [3.25], "modes": 1,
+                "transpose": True, "pad": [8, 8], "obj_type": "potential"}})
+    if thorough:
+        out.append({"block": "large:2021", "override": {**B, "scan": [43, 47], "roi": [5, 6], "step_px": [0.375, 0.375], "slices": 1, "dz": [], "modes": 1, "obj_type": "pure_phase"}})
+    return out
+
+
 def run(ctx):
     from qv.driver import Driver
     import torch
     torch.set_grad_enabled(False)
+    nthreads = torch.get_num_threads()
+    torch.set_num_threads(1)          # tiny tensors: thread hand-over costs more than it saves (and the machine is shared)
     drv = Driver("C02")
     try:
         round_stream(ctx, drv)
         signature_stream(ctx)
+        import time
+        secs = ctx.extra.setdefault("fixed_block_seconds", {})
+        for blk in fixed_blocks(ctx.thorough()):
+            t0 = time.time()
+            pipeline_case(ctx, drv, {"stream": "pipeline", "rseed": BLOCK_SEED, "index": 0, "light": True, **blk})
+            secs[blk["block"]] = round(time.time() - t0, 2)
+            if os.environ.get("C02_ONLY_BLOCKS"):
+                import sys
+                print(f"[C02 dev] block {blk['block']}: {secs[blk['block']]} s; driver: { {k: round(v, 1) for k, v in _ASK_SECONDS.items()} }", file=sys.stderr)
+                _ASK_SECONDS.clear()
         ncfg = min(ctx.n(16, 150), 48 if not ctx.thorough() else 200) if ctx.search_mode else ctx.n(16, 150)
+        if os.environ.get("C02_ONLY_BLOCKS"):      # development switch: the fixed blocks alone
+            ncfg = 0
         for i in range(ncfg):
             case = {"stream": "pipeline", "rseed": ctx.rng.next(), "index": i}
             pipeline_case(ctx, drv, case)
@@ -1268,6 +1399,7 @@ def run(ctx):
     finally:
         drv.close()
         torch.set_grad_enabled(True)
+        torch.set_num_threads(nthreads)
 
 
 def replay(ctx, rep):
@@ -1279,7 +1411,12 @@ def replay(ctx, rep):
     torch.set_grad_enabled(False)
     drv = Driver("C02")
     try:
-        pipeline_case(ctx, drv, {"stream": "pipeline", "rseed": case["rseed"], "index": case.get("index", 0)})
+        if str(case.get("block", "")).startswith("siblings:") and case.get("block") != "siblings:base":
+            # a sibling configuration is evaluated AFTER the base configuration in the same process (state shared between objects)
+            pipeline_case(ctx, drv, {"stream": "pipeline", "rseed": case["rseed"], "index": case.get("index", 0), "light": True,
+                                     "block": "siblings:base", "override": dict(BLOCK_BASE)})
+        pipeline_case(ctx, drv, {"stream": "pipeline", "rseed": case["rseed"], "index": case.get("index", 0),
+                                 **{k: case[k] for k in ("light", "override", "block") if k in case}})
     finally:
         drv.close()
         torch.set_grad_enabled(True)
